@@ -291,6 +291,10 @@ func checkC19(c *Ctx) {
 	r.Rule("R19g", "required lists follow checkIfFieldRequired under the property's own name", 4)
 	r.Rule("R19j", "every constraint keyword is derived from (and guarded by) a rule that constrains the same quantity in the same unit (converse of R19b)", 14)
 	keywordSources(c, "R19j")
+	r.Rule("R19l", "helpers that widen a float32 rule value to the keyword's float64 go through the value's shortest decimal text on every path a value can take", 2)
+	c19WideningHelpers(c, "R19l")
+	r.Rule("R19m", "a reversed numeric range (protovalidate: values outside it) is recognised, with equal bounds counted as an ordinary range", 2)
+	c19ReversedRanges(c, "R19m")
 	r.Rule("R19k", "a schema rebuilt as a copy of another (a literal whose fields are read from one source schema) copies every constraint keyword: a wrapper such as the nullable form must not drop the bounds the rules state", 1)
 	schemaCopiesKeepConstraints(c, "R19k")
 
@@ -1231,4 +1235,180 @@ func calleeParamIndex(info *types.Info, decl *ast.FuncDecl, e ast.Expr) int {
 		return -1
 	}
 	return paramIndex(info, decl, call.Fun)
+}
+
+// c19WideningHelpers — R19l. A helper of the OpenAPI generator that turns a float32 rule value into the float64 a keyword
+// holds must not hand back the exact widening float64(v) on any path a value can take: the JSON form of a float field is its
+// shortest float32 text, and for most values (0.1, but also whole numbers beyond 2^24 such as float32(1e11)) that text denotes
+// a different float64. A `return float64(v)` is accepted only as the unreachable failure arm of the ParseFloat round trip.
+func c19WideningHelpers(c *Ctx, rid string) {
+	r := c.R
+	pk := c.P.Pkg(pkgOpenAPI)
+	if pk == nil {
+		r.Unres(rid, pkgOpenAPI, "", "package not loaded")
+		return
+	}
+	info := pk.TypesInfo
+	n := 0
+	for _, nf := range sortedFuncNames(c.oaDecls(pkgOpenAPI)) {
+		decl := c.oaDecls(pkgOpenAPI)[nf.fn]
+		sig := nf.fn.Type().(*types.Signature)
+		if decl == nil || decl.Body == nil || sig.Params().Len() != 1 || sig.Results().Len() != 1 {
+			continue
+		}
+		if types.TypeString(sig.Params().At(0).Type(), nil) != "float32" || types.TypeString(sig.Results().At(0).Type(), nil) != "float64" {
+			continue
+		}
+		n++
+		param := sig.Params().At(0)
+		parents := parentMap(decl.Body)
+		isWidening := func(e ast.Expr) bool {
+			e = ast.Unparen(e)
+			if id, ok := e.(*ast.Ident); ok {
+				if d := localDef(info, decl.Body, id); d != nil {
+					e = ast.Unparen(d)
+				}
+			}
+			call, ok := e.(*ast.CallExpr)
+			if !ok || len(call.Args) != 1 {
+				return false
+			}
+			if tv, ok := info.Types[call.Fun]; !ok || !tv.IsType() {
+				return false
+			}
+			id, ok := ast.Unparen(call.Args[0]).(*ast.Ident)
+			return ok && info.ObjectOf(id) == types.Object(param)
+		}
+		ast.Inspect(decl.Body, func(nd ast.Node) bool {
+			ret, ok := nd.(*ast.ReturnStmt)
+			if !ok || len(ret.Results) != 1 {
+				return true
+			}
+			key := fmt.Sprintf("%s: return %s", nf.name, types.ExprString(ret.Results[0]))
+			if !isWidening(ret.Results[0]) {
+				r.OK(rid, key, c.P.Pos(ret.Pos()))
+				return true
+			}
+			// accepted only directly under `if err != nil` (the error of the text round trip)
+			underErr := false
+			for p := parents[ast.Node(ret)]; p != nil; p = parents[p] {
+				if ifs, ok := p.(*ast.IfStmt); ok {
+					if be, ok := ast.Unparen(ifs.Cond).(*ast.BinaryExpr); ok && be.Op == token.NEQ && isNilIdent(be.Y) {
+						if id, ok := ast.Unparen(be.X).(*ast.Ident); ok && isErrorType(info.TypeOf(id)) {
+							// the return must be in the then-branch
+							if ret.Pos() >= ifs.Body.Pos() && ret.End() <= ifs.Body.End() {
+								underErr = true
+							}
+						}
+					}
+					break
+				}
+			}
+			r.Check(underErr, rid, key, c.P.Pos(ret.Pos()),
+				fmt.Sprintf("%s returns the exact widening of its float32 argument on a path values take (not only as the failure arm of the decimal-text round trip): the published bound is then a float64 the JSON form of the boundary value does not equal (0.1 → 0.10000000149011612; float32(1e11) → 99999997952 while the field value prints as 1e+11), so gte/lte reject a value the rule accepts and gt/lt accept one it rejects", nf.name))
+			return true
+		})
+	}
+	if n == 0 {
+		r.Unres(rid, "float32 → float64 helpers of internal/openapiv3", "", "none found: float bounds no longer pass through a helper (R19e decides direct conversions)")
+	}
+}
+
+// c19ReversedRanges — R19m. protovalidate reads a lower bound above the upper bound as "outside the range"; with the bounds
+// equal the range is an ordinary one (one value). The generator therefore has to compare the published upper bound with the
+// lower one somewhere on the way from extractValidationConstraints, and every such comparison must put equality on the
+// not-reversed side: U < L, L > U (reversed) or U >= L, L <= U (not reversed). A comparison with equality on the other side
+// treats {gte: 5, lte: 5} as reversed and drops or negates a legal range.
+func c19ReversedRanges(c *Ctx, rid string) {
+	r := c.R
+	evc := c.P.Func(pkgOpenAPI, "extractValidationConstraints")
+	if evc == nil {
+		r.Unres(rid, "extractValidationConstraints", "", "not found")
+		return
+	}
+	nGood := 0
+	for _, fn := range c.P.Reach(evc) {
+		decl := c.P.Decls[fn]
+		if decl == nil || decl.Body == nil || fn.Pkg() == nil || !strings.HasSuffix(fn.Pkg().Path(), pkgOpenAPI) {
+			continue
+		}
+		info := c.P.DeclPkg[fn].TypesInfo
+		// side of an operand: "U" (Maximum / ExclusiveMaximum), "L" (Minimum / ExclusiveMinimum), "" otherwise
+		var side func(e ast.Expr, depth int) string
+		side = func(e ast.Expr, depth int) string {
+			res := ""
+			note := func(s string) {
+				if s == "" {
+					return
+				}
+				if res == "" {
+					res = s
+				} else if res != s {
+					res = "?"
+				}
+			}
+			ast.Inspect(e, func(n ast.Node) bool {
+				switch x := n.(type) {
+				case *ast.SelectorExpr:
+					switch x.Sel.Name {
+					case "Maximum", "ExclusiveMaximum":
+						note("U")
+					case "Minimum", "ExclusiveMinimum":
+						note("L")
+					}
+				case *ast.Ident:
+					if depth < 3 {
+						if v, ok := info.ObjectOf(x).(*types.Var); ok && v.Pkg() != nil && v.Parent() != v.Pkg().Scope() {
+							ast.Inspect(decl.Body, func(m ast.Node) bool {
+								if as, ok := m.(*ast.AssignStmt); ok {
+									for i, lh := range as.Lhs {
+										if li, ok := lh.(*ast.Ident); ok && info.ObjectOf(li) == types.Object(v) {
+											if len(as.Rhs) == len(as.Lhs) {
+												note(side(as.Rhs[i], depth+1))
+											} else if len(as.Rhs) == 1 {
+												note(side(as.Rhs[0], depth+1))
+											}
+										}
+									}
+								}
+								return true
+							})
+						}
+					}
+				}
+				return true
+			})
+			return res
+		}
+		ast.Inspect(decl.Body, func(n ast.Node) bool {
+			be, ok := n.(*ast.BinaryExpr)
+			if !ok {
+				return true
+			}
+			switch be.Op {
+			case token.LSS, token.GTR, token.LEQ, token.GEQ:
+			default:
+				return true
+			}
+			sx, sy := side(be.X, 0), side(be.Y, 0)
+			if !(sx == "U" && sy == "L" || sx == "L" && sy == "U") {
+				return true
+			}
+			// normalise to  U op L
+			op := be.Op
+			if sx == "L" {
+				op = map[token.Token]token.Token{token.LSS: token.GTR, token.GTR: token.LSS, token.LEQ: token.GEQ, token.GEQ: token.LEQ}[op]
+			}
+			key := fmt.Sprintf("%s: comparison %s of the upper with the lower bound", fn.Name(), types.ExprString(be))
+			good := op == token.LSS || op == token.GEQ
+			if good {
+				nGood++
+			}
+			r.Check(good, rid, key, c.P.Pos(be.Pos()),
+				fmt.Sprintf("%s tells a reversed range from an ordinary one with `%s`, which puts equal bounds on the reversed side: the legal one-value range {gte: 5, lte: 5} is treated as reversed and its bounds are dropped or negated, so the schema accepts values the rules reject", fn.Name(), types.ExprString(be)))
+			return true
+		})
+	}
+	r.Check(nGood > 0, rid, "a reversed range (lower bound above the upper bound) is recognised on the way from extractValidationConstraints", c.P.Pos(c.P.Decls[evc].Pos()),
+		"no function reached from extractValidationConstraints compares the published upper bound with the lower one: {gt: 10, lt: 5} (protovalidate: greater than 10 or less than 5) is published as exclusiveMinimum 10 with exclusiveMaximum 5, which no value satisfies")
 }
